@@ -221,7 +221,8 @@ Definition check_state_unmodelled (pre : string) (so : sexp) : verdict + (utree 
     single neighbour) are judged by the oracle alone and the history goes
     on from the dumped tree *)
 Definition unmodelled (name : string) (t : utree) : bool :=
-  ((String.eqb name "outgroup" || String.eqb name "midpoint") &&
+  (String.eqb name "outgroup" && Nat.leb 3 (length (tips t)) && Nat.ltb (degree t) 2) ||
+  (String.eqb name "midpoint" &&
    (Nat.ltb (degree t) 2 || (rooted t && negb (existsb (fun p => negb (is_tip (snd p))) (kids t))))) ||
   (* Model/Collapse.v: subtree sizes of a tree whose root is itself a tip *)
   (String.eqb name "collapse_depth" && Nat.ltb (degree t) 2).
